@@ -322,4 +322,16 @@ def guardState (ops : List (ChainOp × Form)) (pk : Option Atom) (soft : Option 
   | none => st0
 
 
+/-- the same when an earlier condition-free query (Count / Find / First …) already ran on this very statement
+    (a handle with clone = 0 keeps its statement): its soft-delete filter and marker are still in the clauses -/
+def guardStateAfterQuery (ops : List (ChainOp × Form)) (pk : Option Atom) (soft : Option Atom) (unscoped : Bool) : WhereState :=
+  let pre : WhereState := match soft with
+    | some f => softDeleteModify false f { exprs := none, softEnabled := false }
+    | none => { exprs := none, softEnabled := false }
+  let es := pre.exprs.getD [] ++ chainExprs ops ++ (pk.map Ex.atom).toList
+  let st0 : WhereState := { exprs := if es.isEmpty then none else some es, softEnabled := pre.softEnabled }
+  match soft with
+  | some f => softDeleteModify unscoped f st0
+  | none => st0
+
 end Gorm
